@@ -37,6 +37,7 @@ from core.loader import AnalysisError, FuncInfo, Repo, ancestors, calls_in, head
 from core.report import Result
 from core.types import is_set_type, members
 
+from .c15_fusion import fused_view
 from .c15_roots import FRESH, EffectSummaries, Roots
 from .common import callees_of, cfg_of, dotted, guard_formula, iter_sources, loops_around, reachable_funcs, stmt_of, types_of, where
 
@@ -158,17 +159,22 @@ def graph_mutations(repo: Repo) -> list[tuple[FuncInfo, ast.AST, str, ast.AST]]:
 
 def _closure(repo: Repo, seeds: set[FuncInfo]) -> set[FuncInfo]:
     """Functions from which one of `seeds` is reachable through resolved calls."""
+    key = "_c15_callers"
+    if key not in repo.__dict__:
+        rev: dict[FuncInfo, list[FuncInfo]] = {}
+        for f in repo.all_functions():
+            for g in callees_of(repo, f, False):
+                rev.setdefault(g, []).append(f)
+        repo.__dict__[key] = rev
+    rev = repo.__dict__[key]
     out = set(seeds)
-    changed = True
-    funcs = repo.all_functions()
-    while changed:
-        changed = False
-        for f in funcs:
-            if f in out:
-                continue
-            if any(g in out for g in callees_of(repo, f, False)):
+    work = list(seeds)
+    while work:
+        g = work.pop()
+        for f in rev.get(g, ()):
+            if f not in out:
                 out.add(f)
-                changed = True
+                work.append(f)
     return out
 
 
@@ -189,13 +195,159 @@ def _own_exprs(s: ast.AST) -> list[ast.AST]:
     return [s]
 
 
+# ---- ledgers: containers in which the construction records nodes / edges before a graph is materialised from them
+
+LEDGER_GROWERS = {"append", "add", "setdefault", "update", "extend", "insert", "appendleft", "extendleft"}
+_VIEW_METHODS = {"items", "keys", "values", "copy"}
+_COPY_FUNCS = {"sorted", "list", "tuple", "set", "frozenset", "enumerate", "reversed", "iter", "dict"}
+
+
+def _ledger_base(e: ast.AST) -> ast.AST:
+    """The container an iterable expression enumerates: `d.items()`, `sorted(d)`, `list(d.values())` -> `d`."""
+    while True:
+        if isinstance(e, ast.Call) and isinstance(e.func, ast.Attribute) and e.func.attr in _VIEW_METHODS and not e.args:
+            e = e.func.value
+        elif isinstance(e, ast.Call) and isinstance(e.func, ast.Name) and e.func.id in _COPY_FUNCS and e.args and not isinstance(e.args[0], ast.Starred):
+            e = e.args[0]
+        elif isinstance(e, ast.Starred):
+            e = e.value
+        else:
+            return e
+
+
+def _containerish(T, f: FuncInfo, e: ast.AST) -> bool:
+    try:
+        ms = members(T.expr(f, e))
+    except Exception:  # noqa: BLE001
+        return True
+    return all(m == ("unknown",) or (m[0] == "b" and m[1] in ("list", "dict", "set", "frozenset", "seq", "tuple", "iter")) or (m[0] == "lib" and m[1].startswith("collections.")) for m in ms)
+
+
+def _ledger_keys(repo: Repo, T, f: FuncInfo, base: ast.AST) -> list[tuple]:
+    """Identity of a container expression: a local of this function, or the attribute of (the classes of) an object."""
+    if isinstance(base, ast.Name):
+        return [("local", f.fq, base.id)] if _containerish(T, f, base) else []
+    if isinstance(base, ast.Attribute) and _containerish(T, f, base):
+        try:
+            ms = members(T.expr(f, base.value))
+        except Exception:  # noqa: BLE001
+            ms = []
+        out = []
+        for m in ms:
+            if m[0] == "cls" and m[1] in repo.classes:
+                ci = repo.classes[m[1]]
+                out += [("attr", c.fq, base.attr) for c in {*repo.mro(ci), *repo.subclasses(ci)} if c.fq in repo.classes]
+        return out
+    return []
+
+
+def _grow_writes(n: ast.AST) -> list[tuple[ast.AST, ast.AST]]:
+    """(container expression, written node) for a node that adds something to a container."""
+    if isinstance(n, ast.Call) and isinstance(n.func, ast.Attribute) and n.func.attr in LEDGER_GROWERS:
+        return [(n.func.value, n)]
+    if isinstance(n, (ast.Assign, ast.AnnAssign)) and getattr(n, "value", None) is not None:
+        tg = n.targets if isinstance(n, ast.Assign) else [n.target]
+        return [(el.value, n) for t in tg for el in (t.elts if isinstance(t, (ast.Tuple, ast.List)) else [t]) if isinstance(el, ast.Subscript)]
+    if isinstance(n, ast.AugAssign) and isinstance(n.op, (ast.Add, ast.BitOr)):
+        if isinstance(n.target, ast.Subscript):
+            return [(n.target.value, n)]
+        if isinstance(n.target, (ast.Name, ast.Attribute)):
+            return [(n.target, n)]
+    return []
+
+
+class Ledgers:
+    """Containers whose elements become nodes / edges of a networkx graph later on (`for n in self._seen: graph.add_node(n)`,
+    `graph.add_edges_from(self._pending)`, also through a second container): writing to such a container is the construction
+    event the later graph call merely replays, in the container's (insertion) order."""
+
+    def __init__(self, repo: Repo, T) -> None:
+        self.repo = repo
+        self.T = T
+        self.kinds: dict[tuple, set[str]] = {}
+
+    def kinds_of(self, f: FuncInfo, container: ast.AST) -> set[str]:
+        out: set[str] = set()
+        for k in _ledger_keys(self.repo, self.T, f, container):
+            out |= self.kinds.get(k, set())
+        return out
+
+    def write_kinds(self, f: FuncInfo, n: ast.AST) -> set[str]:
+        """Kinds ('node' / 'edge') of graph elements the statement / call `n` of `f` records in a ledger."""
+        out: set[str] = set()
+        if not self.kinds:
+            return out
+        for cont, _w in _grow_writes(n):
+            out |= self.kinds_of(f, cont)
+        return out
+
+    def discover(self, v: FuncInfo) -> bool:
+        """Looks at one function (view): which containers are enumerated around a graph call / ledger write.  True when new."""
+        T, repo = self.T, self.repo
+        changed = False
+        for n in own_nodes(v.node):
+            kinds: set[str] = set()
+            bulk: list[ast.AST] = []
+            if isinstance(n, ast.Call) and isinstance(n.func, ast.Attribute) and _graph_call(T, v, n):
+                a = n.func.attr
+                if a in NODE_ADDERS:
+                    kinds = {"node"}
+                elif a in EDGE_ADDERS:
+                    kinds = {"edge"}
+                if a in ("add_nodes_from", "add_edges_from", "add_weighted_edges_from") and n.args:
+                    bulk = [n.args[0]]
+            if not kinds:
+                kinds = self.write_kinds(v, n)
+                if kinds and isinstance(n, ast.Call) and n.func.attr in ("update", "extend", "extendleft") and n.args:  # type: ignore[union-attr]
+                    bulk = [n.args[0]]
+            if not kinds:
+                continue
+            sources = [*bulk]
+            for lp in loops_around(n, v.node):
+                sources += [it for _t, it in iter_sources(lp)]
+            for it in sources:
+                base = _ledger_base(it)
+                if isinstance(base, (ast.GeneratorExp, ast.ListComp, ast.SetComp)):
+                    bases = [_ledger_base(g.iter) for g in base.generators]
+                else:
+                    bases = [base]
+                for b in bases:
+                    for k in _ledger_keys(repo, T, v, b):
+                        have = self.kinds.setdefault(k, set())
+                        if not kinds <= have:
+                            have |= kinds
+                            changed = True
+        return changed
+
+
 def _graph_closures(repo: Repo) -> dict:
     key = "_c15_graph_closures"
     if key not in repo.__dict__:
+        T = types_of(repo)
         muts = graph_mutations(repo)
         kind_funcs = {k: _closure(repo, {f for f, _n, kk, _r in muts if kk == k}) for k in ("node", "edge", "other")}
         freezers = {f for f in repo.all_functions() for c in calls_in(f.node) if _lib_name(repo, f, c) == "networkx.freeze"}
-        repo.__dict__[key] = {"muts": muts, "kind_funcs": kind_funcs, "freeze_funcs": _closure(repo, freezers)}
+        # ledgers: found in the functions that take part in a construction (callers of graph calls), seen through their views
+        led = Ledgers(repo, T)
+        builders = [f for f in repo.all_functions() if (f in kind_funcs["node"] or f in kind_funcs["edge"]) and not isinstance(f.node, ast.Lambda)]
+        for _round in range(3):
+            changed = False
+            for f in builders:
+                changed |= led.discover(inline_view(repo, f, T))
+            if not changed:
+                break
+        writers: dict[str, set[FuncInfo]] = {"lnode": set(), "ledge": set()}
+        attr_names = {k[2] for k in led.kinds if k[0] == "attr"}
+        if attr_names:
+            for f in repo.all_functions():
+                for n in own_nodes(f.node):
+                    for cont, _w in _grow_writes(n):
+                        if isinstance(cont, ast.Attribute) and cont.attr in attr_names:
+                            for kd in led.kinds_of(f, cont):
+                                writers["l" + kd].add(f)
+        for k, fs in writers.items():
+            kind_funcs[k] = _closure(repo, fs) if fs else set()
+        repo.__dict__[key] = {"muts": muts, "kind_funcs": kind_funcs, "freeze_funcs": _closure(repo, freezers), "ledgers": led}
     return repo.__dict__[key]
 
 
@@ -207,11 +359,16 @@ class GraphBuild:
         self.repo = repo
         self.fn = fn
         self.T = types_of(repo)
-        self.view = inline_view(repo, fn, self.T)
+        # helpers expanded, then producer / consumer protocols over iterators (generators, itertools.chain) spelled as loops
+        self.view = fused_view(repo, inline_view(repo, fn, self.T), self.T)
         self.cfg = cfg_of(self.view)
         cl = _graph_closures(repo)
         self.kind_funcs = cl["kind_funcs"]
         self.freeze_funcs = cl["freeze_funcs"]
+        self.ledgers: Ledgers = cl["ledgers"]
+        for _round in range(3):  # ledgers that are locals of this very view
+            if not self.ledgers.discover(self.view):
+                break
         self.ev = {s: self.events(s) for s in self.cfg.stmts()}
 
     def callees(self, c: ast.Call) -> list[FuncInfo]:
@@ -233,6 +390,9 @@ class GraphBuild:
                         for el in (t.elts if isinstance(t, (ast.Tuple, ast.List)) else [t]):
                             if isinstance(el, (ast.Subscript, ast.Attribute)) and _through_digraph(T, v, el.value):
                                 out.setdefault("other", []).append(c)  # type: ignore[arg-type]
+                if isinstance(c, ast.Call) or c is s:
+                    for kd in sorted(self.ledgers.write_kinds(v, c)):
+                        out.setdefault("l" + kd, []).append(c)  # type: ignore[arg-type]
                 if not isinstance(c, ast.Call):
                     continue
                 if _lib_name(self.repo, v, c) == "networkx.freeze":
@@ -312,8 +472,8 @@ def _elem_classes(t) -> set[str] | None:
     return out if known else None
 
 
-def _unit_over(v: FuncInfo, call: ast.Call, d: set[str], repo: Repo, T, by_class: set[str] | None = None) -> ast.AST | None:
-    """Outermost statement that makes `call` happen once per element of a collection derived from `d`: an enclosing loop or
+def _unit_over(v: FuncInfo, call: ast.AST, d: set[str], repo: Repo, T, by_class: set[str] | None = None) -> ast.AST | None:
+    """(`call` is a call, or a statement that stores into a ledger.)  Outermost statement that makes `call` happen once per element of a collection derived from `d`: an enclosing loop or
     comprehension over it, a bulk call taking it as argument, or a call of a helper that loops over it.  With `by_class`, a loop
     whose element type is known counts exactly when its elements are instances of one of these classes (the data flow is only
     consulted for untyped iterables): aggregates holding both arguments do not blur the picture."""
@@ -335,6 +495,8 @@ def _unit_over(v: FuncInfo, call: ast.Call, d: set[str], repo: Repo, T, by_class
                 unit = lp if isinstance(lp, (ast.For, ast.AsyncFor)) else stmt_of(lp)
     if unit is not None:
         return unit
+    if not isinstance(call, ast.Call):
+        return None
     if any(over(a) for a in [*call.args, *[k.value for k in call.keywords]]):
         return stmt_of(call)
     attrs = {x.split(".", 1)[1] for x in d if x.startswith("self.")}
@@ -465,13 +627,14 @@ def run_r1(repo: Repo, res: Result) -> None:
                         imp_classes |= {c.fq for c in repo.mro(ci)} | {c.fq for c in repo.subclasses(ci)}
             node_units: list[ast.AST] = []
             edge_units: list[ast.AST] = []
+            # an element recorded in a ledger (a container the graph is materialised from later) counts like the graph call
             for s, e in ev.items():
-                for c in e.get("edge", []):
+                for c in [*e.get("edge", []), *e.get("ledge", [])]:
                     u = _unit_over(v, c, d_imp, repo, T, imp_classes)
                     if u is not None and u not in edge_units:
                         edge_units.append(u)
             for s, e in ev.items():
-                for c in e.get("node", []):
+                for c in [*e.get("node", []), *e.get("lnode", [])]:
                     u = _unit_over(v, c, d_mod, repo, T)
                     if u is not None and u not in node_units and not any(u is x or x in list(ancestors(u)) for x in edge_units):
                         node_units.append(u)
@@ -508,7 +671,11 @@ def run_r1(repo: Repo, res: Result) -> None:
     for f, c, _k, recv in muts:
         rv = R.value(f, recv)
         if rv.obj and rv.only_fresh:
-            continue  # a private graph created in this very function
+            # a private graph created in this very call (a builder's local, a copy made for drawing): it cannot be a graph that
+            # an earlier construction has frozen and handed to an evaluable
+            n_sites += 1
+            res.add("C15.R1", repo.key(f, stmt_of(c)), True, "the graph modified here is created in the same call: no long-lived graph is touched", where(f, c), kind="effect")
+            continue
         n_sites += 1
         ok = f not in outside
         path = outside.get(f)
